@@ -310,7 +310,7 @@ class TSlow(Event):
     pass
 
 
-@obligation(quick=200, thorough=400, partitions_quick=[f"T == {t}" for t in (1, 2, 3)], partitions_thorough=[f"T == {t} and c == {c}" for t in (1, 2, 3, 4) for c in (0, 1, 2)],
+@obligation(quick=200, thorough=400, partitions_quick=[f"T == {t}" for t in (1, 2, 3)], partitions_thorough=[f"T == {t} and c == {c}" for t in (1, 2, 3, 4) for c in range(t)],
             what="whole run, real BasicRuntime on the virtual-time loop: a run with timeout T is cancelled at a symbolic instant c < T while a step is still "
                  "running, its context goes through to_dict -> JSON -> Context.from_dict, and the resumed run (still unfinished: the step never "
                  "completes) fails with WorkflowTimeoutError T seconds after the resume, after publishing WorkflowTimedOutEvent naming the active step; a "
